@@ -293,3 +293,86 @@ _replay.GENERATORS.update({
     'tx_wire_roundtrip': lambda rng: {'cls': {'__class__': 'bitcoin.core:CTransaction'}, 'buf': None, 'tx': _gen_tx(rng, cls='bitcoin.core:CMutableTransaction', min_in=1)},
     'block_wire_roundtrip': lambda rng: {'cls': {'__class__': 'bitcoin.core:CBlock'}, 'buf': None, 'blk': _gen_block(rng)},
 })
+
+
+# ---- bounded: strict prefixes, extensions, and re-serialisation of an edited mutable transaction -----------------
+from bitcoin.core.serialize import SerializationTruncationError, DeserializationExtraDataError
+
+
+@contract('bitcoin.core.serialize:Serializable.deserialize', name='tx_prefix_truncated', prop=P)
+def tx_prefix_truncated(cls: Const(CTransaction), buf: Bytes, *, tx: Obj(CMutableTransaction), cut: Int):
+    """BOUNDED: every strict prefix of the encoding of a generated transaction (with and without witness) raises the
+    truncation error - never the extra-data error, another exception, or an object"""
+    option(bounded=700)
+    requires(valid_tx(tx) and len(tx.vin) >= 1 and cut >= 0)
+    requires(buf == enc_tx(tx, True)[:cut % len(enc_tx(tx, True))])
+    raises(SerializationTruncationError, when=True)
+
+
+@contract('bitcoin.core.serialize:Serializable.deserialize', name='tx_extension_refused', prop=P)
+def tx_extension_refused(cls: Const(CTransaction), buf: Bytes, *, tx: Obj(CMutableTransaction), extra: Bytes):
+    """BOUNDED: a valid encoding followed by one or more bytes raises the extra-data error"""
+    option(bounded=300)
+    requires(valid_tx(tx) and len(tx.vin) >= 1 and len(extra) >= 1)
+    requires(buf == enc_tx(tx, True) + extra)
+    raises(DeserializationExtraDataError, when=True)
+
+
+@contract('bitcoin.core:CMutableTransaction.serialize', name='mutable_tx_reserialized', prop=P)
+def mutable_tx_reserialized(self: Any):
+    """BOUNDED: a mutable transaction that has been serialised (and hashed) before and edited since serialises to the
+    prescribed bytes of its CURRENT field values (resolved through the live class, so a serialize() override is met)"""
+    option(bounded=400)
+    requires(valid_tx(self) and len(self.vin) >= 1)
+    ensures(result == enc_tx(self, True))
+
+
+def _build_c01_reser(inputs, chain):
+    import random
+    from bitcoin.core import CMutableTxOut, CMutableTxIn, CMutableOutPoint, CTxWitness, CTxInWitness
+    from bitcoin.core.script import CScriptWitness
+    rng = random.Random(inputs['seed'])
+    tx = _replay.decode_value(inputs['tx'])
+    for f in (tx.serialize, tx.GetTxid, tx.GetHash, lambda: hash(tx)):
+        try:
+            f()
+        except Exception:
+            pass
+    for op in inputs['ops']:
+        if op == 'lock':
+            tx.nLockTime = rng.getrandbits(32)
+        elif op == 'version':
+            tx.nVersion = rng.choice([1, 2, -1])
+        elif op == 'add_out':
+            tx.vout.append(CMutableTxOut(rng.choice([0, 1, 10**8]), CScript(b'\x51')))
+        elif op == 'del_out' and tx.vout:
+            del tx.vout[-1]
+        elif op == 'value' and tx.vout:
+            tx.vout[0].nValue = rng.choice([0, 5, 21 * 10**14])
+        elif op == 'seq':
+            tx.vin[rng.randrange(len(tx.vin))].nSequence = rng.getrandbits(32)
+        elif op == 'script':
+            tx.vin[rng.randrange(len(tx.vin))].scriptSig = CScript(bytes(rng.getrandbits(8) for _ in range(rng.choice([0, 1, 75, 76, 253]))))
+        elif op == 'add_in':
+            tx.vin.append(CMutableTxIn(CMutableOutPoint(bytes(32), 7), CScript(), 1))
+            if len(tx.wit.vtxinwit):
+                tx.wit = CTxWitness(tuple(tx.wit.vtxinwit) + (CTxInWitness(),))
+        elif op == 'wit':
+            tx.wit = CTxWitness([CTxInWitness(CScriptWitness([b'w' * rng.choice([1, 72])])) for _ in tx.vin])
+        elif op == 'nowit':
+            tx.wit = CTxWitness()
+    return {'self': tx}
+
+
+_replay.BUILD_HOOKS['c01_reser'] = _build_c01_reser
+_replay.GENERATORS.update({
+    'tx_prefix_truncated': lambda rng: {'cls': {'__class__': 'bitcoin.core:CTransaction'}, 'buf': None,
+                                        'tx': _gen_tx(rng, cls='bitcoin.core:CMutableTransaction', min_in=1),
+                                        'cut': rng.choice([0, 1, 3, 4, 5, 6, 7, 27, rng.randrange(10**6), rng.randrange(10**6), rng.randrange(10**6)])},
+    'tx_extension_refused': lambda rng: {'cls': {'__class__': 'bitcoin.core:CTransaction'}, 'buf': None,
+                                         'tx': _gen_tx(rng, cls='bitcoin.core:CMutableTransaction', min_in=1),
+                                         'extra': {'__bytes__': [rng.getrandbits(8) for _ in range(rng.choice([1, 1, 2, 5, 100]))], 'cls': 'builtins:bytes'}},
+    'mutable_tx_reserialized': lambda rng: {'__build__': 'c01_reser', 'tx': _gen_tx(rng, cls='bitcoin.core:CMutableTransaction', min_in=1),
+                                            'ops': [rng.choice(['lock', 'version', 'add_out', 'del_out', 'value', 'seq', 'script', 'add_in', 'wit', 'nowit'])
+                                                    for _ in range(rng.randint(1, 3))], 'seed': rng.getrandbits(32)},
+})
